@@ -1,7 +1,7 @@
 // Translation unit for uncrustify_file() (C04-K1 option gating, C06-K4 output-last typestate and embedded-NUL scan,
 // C09-K6 encoding/BOM policy, C12-K3 check accounting): the real driver of src/uncrustify.cpp, verbatim.  Every pass
 // it calls is a generated ghost stub (gen/uf_stubs.h, regenerated from the function text on every run).
-#include "/repo/src/token_enum.h"
+#include "token_enum.h"      /* from the working tree: -I <repo>/src */
 #define VERIF_E_TOKEN
 #define VERIF_UNC_STAGE_T unc_stage_e
 #include "base.h"
